@@ -35,6 +35,8 @@ pub mod keys;
 pub mod register;
 pub mod reader;
 pub mod vic;
+#[cfg(vicut_verif)]
+pub mod verif;
 #[cfg(test)]
 pub mod tests;
 
@@ -755,6 +757,8 @@ fn format_output_template(template: &str, lines: Vec<Vec<(String,String)>>) -> R
 /// Here we are going to initialize a new instance of `ViCut` to manage state for editing this input
 /// Next we loop over `args.cmds` and execute each one in sequence.
 fn execute(args: &Opts, input: String, filename: Option<PathBuf>) -> Result<Vec<Vec<(String,String)>>,String> {
+	#[cfg(vicut_verif)]
+	verif::jitter(&input);
 	let fields: Vec<(String,String)> = vec![];
 	let fmt_lines: Vec<Vec<(String,String)>> = vec![];
 
@@ -1707,6 +1711,8 @@ fn main_script() {
 		Opts::from_script(script_path).unwrap_or_else(complain_and_exit)
 	};
 
+	#[cfg(vicut_verif)]
+	verif::dump_opts_if_requested(&opts);
 
 	init_logger(opts.trace);
 
@@ -1728,6 +1734,9 @@ fn main_script() {
 fn main() {
 	//#[cfg(all(test,debug_assertions))]
 	//do_test_stuff();
+
+	#[cfg(vicut_verif)]
+	if verif::serve_if_requested() { return }
 
 	print_help_or_version();
 
@@ -1776,6 +1785,9 @@ fn main() {
 			Opts::parse().unwrap_or_else(complain_and_exit)
 		}
 	};
+
+	#[cfg(vicut_verif)]
+	verif::dump_opts_if_requested(&opts);
 
 	init_logger(opts.trace);
 
